@@ -98,7 +98,7 @@ def check_truncation(case):
 
 # ---- (iii) streams with damaged messages ----------------------------------------------------------
 FAULTS = ['stop', 'unknown_element', 'unknown_sequence', 'length_minus', 'length_plus', 'element_to_operator']
-UNKNOWN_E = [63255, 48001, 1250, 12250, 31003, 31255]
+UNKNOWN_E = [63255, 48001, 1250, 12250, 31003, 31255, 0]
 UNKNOWN_S = [363255, 348001, 301250]
 
 
